@@ -862,7 +862,16 @@ impl InterfaceInner {
             #[cfg(feature = "proto-ipv4")]
             IpAddress::Ipv4(addr) => self.get_source_address_ipv4(addr).map(|a| a.into()),
             #[cfg(feature = "proto-ipv6")]
-            IpAddress::Ipv6(addr) => Some(self.get_source_address_ipv6(addr).into()),
+            IpAddress::Ipv6(addr) => {
+                let src_addr = self.get_source_address_ipv6(addr);
+                // Without any IPv6 address the loopback address is selected, but that
+                // one must never leave the node (RFC 4291 2.5.3).
+                if src_addr.is_loopback() && !addr.is_loopback() {
+                    None
+                } else {
+                    Some(src_addr.into())
+                }
+            }
         }
     }
 
